@@ -82,6 +82,59 @@ def preflight(seed):
     return None
 
 
+def _work_q(args, idx, q):
+    try:
+        q.put((idx, _work(args)))
+    except BaseException as ex:  # noqa: a dying worker must still report
+        q.put((idx, {"case": str(args[1]), "obligations": [], "violations": [], "inconclusive": [], "known": [],
+                     "errors": [f"worker failed: {type(ex).__name__}: {ex}"], "case_args": args[1]}))
+
+
+def run_pool(work, jobs, case_timeout):
+    """one process per case (robust against a worker that is killed by the memory limit or crashes inside the solver):
+    a case whose process dies or exceeds the time limit is reported as inconclusive, never as success"""
+    ctx = mp.get_context("spawn")
+    q = ctx.Queue()
+    pending = list(enumerate(work))
+    running = {}
+    results = {}
+    while pending or running:
+        while pending and len(running) < jobs:
+            idx, w = pending.pop(0)
+            p = ctx.Process(target=_work_q, args=(w, idx, q), daemon=True)
+            p.start()
+            running[idx] = (p, time.time(), w)
+        try:
+            idx, res = q.get(timeout=1.0)
+            results[idx] = res
+        except Exception:
+            pass
+        for idx in list(running):
+            p, t0, w = running[idx]
+            if idx in results:
+                p.join(timeout=5)
+                del running[idx]
+            elif not p.is_alive():
+                # drain a result that may have arrived just now
+                try:
+                    while True:
+                        i2, r2 = q.get_nowait()
+                        results[i2] = r2
+                except Exception:
+                    pass
+                if idx not in results:
+                    results[idx] = {"case": json.dumps(w[1]), "obligations": [], "violations": [], "known": [], "errors": [],
+                                    "inconclusive": [f"worker process died (exit code {p.exitcode}): memory / solver budget exceeded"],
+                                    "case_args": w[1]}
+                del running[idx]
+            elif time.time() - t0 > case_timeout:
+                p.terminate()
+                results[idx] = {"case": json.dumps(w[1]), "obligations": [], "violations": [], "known": [], "errors": [],
+                                "inconclusive": [f"case exceeded the time budget of {case_timeout:.0f} s"], "case_args": w[1]}
+                del running[idx]
+    return [results[i] for i in range(len(work))]
+
+
 def load_known(check_id):
     """keys of open findings for this property from known_findings.txt"""
     known = {}
@@ -137,10 +190,7 @@ def main(argv=None):
         for w in work:
             results.append(_work(w))
     else:
-        ctx = mp.get_context("spawn")
-        with cf.ProcessPoolExecutor(max_workers=min(a.jobs, len(work)), mp_context=ctx) as ex:
-            for r in ex.map(_work, work):
-                results.append(r)
+        results = run_pool(work, min(a.jobs, len(work)), float(os.environ.get("VERIF_CASE_TIMEOUT", "5400" if a.tier == "quick" else "14400")))
     wall = time.time() - t0
     return finish(check_id, a.tier, seed, mod, results, wall)
 
